@@ -8,7 +8,7 @@ package maincmd
 //      then works through the root opened on it. When the client is the
 //      sender it reads its sources (any path the user named).
 //@ func maincmd.ClientRun
-//@   allows[C05] pathwrite(p) if opts.am_sender == 0 && (p == paths[0] || isProcFd(p) && rootPath(procFdRoot(p)) == paths[0])
+//@   allows[C05] pathwrite(p) if opts.am_sender == 0 && (p == paths[0] || isProcFd(p) && (procFdRoot(p) == nil || rootPath(procFdRoot(p)) == paths[0]))
 //@   allows[C05] pathread(p) if opts.am_sender != 0 || p == paths[0]
 //@   allows[C05] fswrite(h) if opts.am_sender == 0 && (h == nil || rootPath(h) == paths[0])
 //@   allows[C05] fsread(h) if opts.am_sender != 0 || h == nil || rootPath(h) == paths[0]
